@@ -684,6 +684,311 @@ def run_jacobians(ctx, sq, n, bad_binding):
                            {"kind": "jacobian", "sequence": desc, "wrt": wrt, "values": values, "why": why}, found_input=True, signature=sig_)
 
 
+# ------------------------------------------------------------------ (e) hessian: variables shared across parameters, non-linear
+HVARS = ["a", "b", "c"]
+# physical ranges of the parameters of the multi-parameter operators
+TARGET = {"alpha": 55.0, "phi": 35.0, "tau": 5.0, "T1": 800.0, "T2": 50.0, "g": 0.02, "rT": 0.05, "rL": 0.004, "r0": 0.004}
+HOPS = {"T": ["alpha", "phi"], "E": ["tau", "T1", "T2", "g"], "P": ["tau", "g"], "Phi": ["phi"], "R": ["rT", "rL", "r0"]}
+
+
+def gen_form(rng, nonlinear):
+    u, w, x = rng.sample(HVARS, 3)
+    if nonlinear:
+        return rng.choice([
+            A("mul", V(u), V(w)), A("div", V(u), V(w)), A("add", A("mul", V(u), V(w)), V(x)),
+            A("mul", A("add", V(u), V(w)), V(x)), A("mul", A("pow", V(u), C(2)), V(w)),
+            A("mul", V(u), A("exp", A("div", V(w), C(8)))), A("div", V(u), A("add", V(w), V(x)))])
+    return rng.choice([V(u), A("mul", C(2), V(u)), A("add", V(u), C(1)), A("pow", V(u), C(2)), A("add", V(u), V(w))])
+
+
+def tree_val(t, vals):
+    k = t[0]
+    if k == "c":
+        return float(t[1])
+    if k == "v":
+        return vals[t[1]]
+    a = [tree_val(x, vals) for x in t[2]]
+    f = t[1]
+    return {"add": lambda: a[0] + a[1], "sub": lambda: a[0] - a[1], "mul": lambda: a[0] * a[1], "div": lambda: a[0] / a[1],
+            "pow": lambda: a[0] ** a[1], "exp": lambda: math.exp(a[0]), "neg": lambda: -a[0]}[f]()
+
+
+def gen_shared_case(rng):
+    """sequence whose multi-parameter operators have argument expressions that share variables across
+    parameters, several of them non-linear in two variables"""
+    vals = {"a": rng.choice([2.0, 2.5, 3.0]), "b": rng.choice([3.5, 4.0, 5.0]), "c": rng.choice([1.25, 1.5, 2.0])}
+    ops = [{"op": "T", "args": {"alpha": C(60), "phi": C(0)}, "kw": []}]
+    for blk in range(rng.randint(2, 3)):
+        ops.append({"op": "S", "args": {"k": C(1)}, "kw": []})
+        for _ in range(rng.randint(1, 2)):
+            name = rng.choice(["T", "T", "E", "E", "P", "R", "Phi"])
+            args = {}
+            for p in HOPS[name]:
+                r = rng.random()
+                if r < 0.2:
+                    args[p] = C(Fraction(TARGET[p]).limit_denominator(1000))
+                    continue
+                form = gen_form(rng, r < 0.65)
+                sc = TARGET[p] / tree_val(form, vals)
+                sc = Fraction(float("%.2g" % sc)).limit_denominator(10 ** 6)
+                args[p] = A("mul", C(sc), form)
+            # which arguments are passed by keyword (a suffix of the positionals; keyword-only ones always)
+            names = HOPS[name]
+            npos = rng.randint(0, len(names))
+            kw = [p for i, p in enumerate(names) if i >= npos or (name == "R" and p == "r0")]
+            ops.append({"op": name, "args": args, "kw": kw})
+        ops.append({"op": "ADC"})
+    return {"ops": ops, "vals": vals}
+
+
+def build_shared(case, sq):
+    seq = []
+    for o in case["ops"]:
+        if o["op"] == "ADC":
+            seq.append("ADC")
+            continue
+        cls = getattr(sq.operators, o["op"])
+        ex = {p: (int(t[1]) if o["op"] == "S" else fnum(t[1]) if t[0] == "c" else to_py(t, sq)) for p, t in o["args"].items()}
+        pos = [ex[p] for p in o["args"] if p not in o["kw"]]
+        seq.append(cls(*pos, **{p: ex[p] for p in o["kw"]}))
+    return sq.Sequence(seq)
+
+
+def concrete_shared(case, vals):
+    """the same sequence built by hand from epgpy.operators with the evaluated arguments"""
+    import epgpy as epg
+    seq = []
+    for o in case["ops"]:
+        if o["op"] == "ADC":
+            seq.append(epg.ADC)
+        else:
+            seq.append(getattr(epg.operators, o["op"])(**{p: (int(t[1]) if o["op"] == "S" else tree_val(t, vals)) for p, t in o["args"].items()}))
+    return seq
+
+
+def shared_desc(case):
+    def r(t):
+        if t[0] == "c":
+            return "%g" % float(t[1])
+        if t[0] == "v":
+            return t[1]
+        sym = {"add": "+", "sub": "-", "mul": "*", "div": "/", "pow": "**"}
+        if t[1] in sym:
+            return "(%s%s%s)" % (r(t[2][0]), sym[t[1]], r(t[2][1]))
+        return "%s(%s)" % (t[1], ", ".join(r(x) for x in t[2]))
+    return " ".join("ADC" if o["op"] == "ADC" else "%s(%s)" % (o["op"], ", ".join("%s=%s" % (p, r(t)) for p, t in o["args"].items()))
+                    for o in case["ops"])
+
+
+def hessian_check(case, sq, v1, v2):
+    """-> None or a description of the disagreement (spec: central differences of the signal of hand-built
+    concrete operators for the jacobian, central differences of jacobian() for the hessian)"""
+    import epgpy as epg
+    s = build_shared(case, sq)
+    vals = case["vals"]
+    sig, jac, hes = s.hessian(v1, v2)(dict(vals))
+    sig0 = np.moveaxis(np.asarray(epg.simulate(concrete_shared(case, vals))), 0, -1)
+    if sig.shape != sig0.shape or np.abs(sig - sig0).max() > 1e-12:
+        return "signal of hessian() differs from the hand-built concrete sequence"
+    cols = v2 if v2 is not None else v1
+    if jac.shape != sig.shape + (len(v1),) or hes.shape != sig.shape + (len(v1), len(cols)):
+        return "shapes: signal %s jacobian %s hessian %s for %d x %d variables" % (sig.shape, jac.shape, hes.shape, len(v1), len(cols))
+
+    def csig(v):
+        return np.moveaxis(np.asarray(epg.simulate(concrete_shared(case, v))), 0, -1)
+    for i, v in enumerate(v1):
+        h = 1e-6 * abs(vals[v])
+        up, dn = dict(vals), dict(vals)
+        up[v] += h
+        dn[v] -= h
+        fd = (csig(up) - csig(dn)) / (2 * h)
+        if np.abs(jac[..., i] - fd).max() > 1e-6 * (np.abs(fd).max() + np.abs(sig).max()):
+            return "d signal / d %s: hessian()'s jacobian %s, central difference of the concrete sequence %s" % (
+                v, np.round(jac[..., i], 9).tolist(), np.round(fd, 9).tolist())
+    for j, v in enumerate(cols):
+        h = 1e-5 * abs(vals[v])
+        up, dn = dict(vals), dict(vals)
+        up[v] += h
+        dn[v] -= h
+        fd = (s.jacobian(v1)(up)[1] - s.jacobian(v1)(dn)[1]) / (2 * h)
+        for i, u in enumerate(v1):
+            err = np.abs(hes[..., i, j] - fd[..., i]).max()
+            if err > 1e-5 * (np.abs(fd).max() + np.abs(hes).max()) + 1e-9:
+                return "d2 signal / d%s d%s: hessian %s, central difference of jacobian %s" % (
+                    u, v, np.round(hes[..., i, j], 9).tolist(), np.round(fd[..., i], 9).tolist())
+    return None
+
+
+def run_hessians(ctx, sq, n):
+    rng = ctx.rng
+    seen = set()
+    for k in range(n):
+        case = gen_shared_case(rng)
+        allv = sorted({v for o in case["ops"] if o["op"] != "ADC" for t in o["args"].values() for v in tree_vars(t)})
+        if len(allv) < 2:
+            continue
+        v1 = rng.sample(allv, rng.randint(2, len(allv)))
+        # second stream: different variables in rows and columns (docstring: hessian([var1, var2], [var3]))
+        v2 = None if k % 3 else rng.sample(allv, rng.randint(1, len(allv)))
+        desc = shared_desc(case)
+        todo = [(v1, v2)]
+        if k % 6 == 0:     # one row, one column, both orders
+            u, w = rng.sample(allv, 2)
+            todo = [([u], [w]), ([w], [u])]
+        for v1, v2 in todo:
+            run_hessian_case(ctx, sq, case, desc, v1, v2, seen)
+
+
+def run_hessian_case(ctx, sq, case, desc, v1, v2, seen):
+    if True:
+        ctx.count(("hess", desc, tuple(v1), tuple(v2 or ())), nontrivial=True)
+        ctx.cov["hessian_cases"] = ctx.cov.get("hessian_cases", 0) + 1
+        replay = {"kind": "hessian", "case": case, "v1": v1, "v2": v2, "sequence": desc}
+        try:
+            why = hessian_check(case, sq, v1, v2)
+        except Exception as e:
+            why = "raised %s: %s" % (type(e).__name__, str(e)[:200])
+        if why:
+            sig = {"site": "Sequence.hessian"}
+            if v2 is not None:
+                # is the full symmetric hessian on the union of the variables right?  then only the
+                # rows / columns selection of the wrapper is wrong
+                union = sorted(set(v1) | set(v2))
+                why_full = hessian_check_safe(case, sq, union)
+                if why_full is None:
+                    sig = {"site": "Sequence.hessian", "why": "rows-and-columns-variable-lists"}
+                else:
+                    why, replay = why_full, dict(replay, v1=union, v2=None)
+                    v1, v2 = union, None
+            if json.dumps(sig) in seen:
+                return
+            seen.add(json.dumps(sig))
+            ctx.report("Sequence %s, hessian(%s, %s) at %s: %s" % (desc, v1, v2, case["vals"], why), dict(replay, why=why),
+                       found_input=True, signature=sig)
+
+
+def hessian_check_safe(case, sq, v1):
+    try:
+        return hessian_check(case, sq, v1, None)
+    except Exception as e:
+        return str(e)
+
+
+# ------------------------------------------------------------------ (f) batches of variable values (rank 0..3, non-square)
+def gen_batch_values(rng, names, base, rank):
+    dims = rng.sample([2, 3, 4], rank) if rank else []
+    shape = tuple(dims)
+    vals = {}
+    owners = {ax: rng.choice(names) for ax in range(rank)}       # every batch axis is carried by some variable
+    for nme in names:
+        shp = [1] * rank
+        for ax in range(rank):
+            if owners[ax] == nme or rng.random() < 0.25:
+                shp[ax] = shape[ax]
+        # arrays always have the full batch rank: epgpy's operators align lower-rank arrays from the left
+        # (trailing axes appended) while numpy, inside one Expression, aligns them from the right
+        if not shp or all(d == 1 for d in shp) and rng.random() < 0.5:
+            vals[nme] = base[nme]
+            continue
+        size = int(np.prod(shp))
+        vals[nme] = (base[nme] * (1 + 0.07 * np.arange(size) / max(size, 1)) * (1 + 0.013 * rng.random())).reshape(shp)
+    return shape, vals
+
+
+def run_batches(ctx, sq, n):
+    rng = ctx.rng
+    reported = False
+    for k in range(n):
+        rank = k % 4
+        case = gen_shared_case(rng) if k % 2 else None
+        if case is not None:
+            s, base, desc = build_shared(case, sq), case["vals"], shared_desc(case)
+        else:
+            seq, base, _, desc = gen_sequence(rng, sq, [])
+            s = sq.Sequence(seq)
+        names = sorted(str(v) for v in s.variables)
+        if not names:
+            continue
+        shape, vals = gen_batch_values(rng, names, base, rank)
+        wrt = rng.sample(names, rng.randint(1, min(3, len(names))))
+        ctx.count(("batch", desc, shape, tuple(wrt)), nontrivial=rank >= 1)
+        ctx.cov["batch_cases"] = ctx.cov.get("batch_cases", 0) + 1
+        ctx.cov.setdefault("batch_ranks", {})
+        ctx.cov["batch_ranks"][str(rank)] = ctx.cov["batch_ranks"].get(str(rank), 0) + 1
+        why = batch_check(s, vals, shape, wrt)
+        if why and not reported:
+            reported = True
+            site = why[0]
+            ctx.report("Sequence %s with batch shape %s (value shapes %s), variables %s: %s" % (
+                desc, shape, {k_: np.shape(v) for k_, v in vals.items()}, wrt, why[1]),
+                {"kind": "batch", "sequence": desc, "case": case, "batch_shape": list(shape), "wrt": wrt,
+                 "values": {k_: np.asarray(v).tolist() for k_, v in vals.items()}, "why": why[1]},
+                found_input=True, signature={"site": site, "why": "batch"})
+
+
+def batch_check(s, vals, shape, wrt):
+    """batched call vs one scalar call per batch entry (the scalar calls are what (d)/(e) check against
+    central differences): shapes and every entry of signal, jacobian, hessian's jacobian, crlb, confint"""
+    bshape = shape if shape else (1,)
+    try:
+        sig = s.signal()(dict(vals))
+        sigj, jac = s.jacobian(wrt)(dict(vals))
+        sigh, jach, hes = s.hessian(wrt)(dict(vals))
+    except Exception as e:
+        return ("Sequence.jacobian", "raised %s: %s" % (type(e).__name__, str(e)[:200]))
+    nadc = sig.shape[-1]
+    if sig.shape != bshape + (nadc,):
+        return ("Sequence.signal", "signal has shape %s, expected %s" % (sig.shape, bshape + (nadc,)))
+    if jac.shape != bshape + (nadc, len(wrt)):
+        return ("Sequence.jacobian", "jacobian has shape %s, expected %s" % (jac.shape, bshape + (nadc, len(wrt))))
+    if jach.shape != jac.shape or hes.shape != bshape + (nadc, len(wrt), len(wrt)):
+        return ("Sequence.hessian", "hessian() returns shapes %s %s" % (jach.shape, hes.shape))
+    if not np.array_equal(sigj, sig) or not np.array_equal(sigh, sig):
+        return ("Sequence.jacobian", "signal returned by jacobian()/hessian() differs from signal()")
+    scale = np.abs(jac).max() + np.abs(jach).max() + 1e-300
+    if np.abs(jac - jach).max() > 1e-10 * scale:
+        return ("Sequence.jacobian", "jacobian() differs from the jacobian returned by hessian() (max abs difference %.3g)" % np.abs(jac - jach).max())
+    full = {}
+    for k, v in vals.items():      # left-aligned broadcasting (epgpy convention: missing axes are appended)
+        v = np.asarray(v, float)
+        full[k] = np.broadcast_to(v.reshape(v.shape + (1,) * (len(bshape) - v.ndim)), bshape)
+    fisher = np.einsum("...ni,...nj->...ij", jac.conj(), jac).real
+    do_stats = nadc >= len(wrt) and np.all(np.linalg.cond(fisher) < 1e7)
+    obs = sig * 1.01 + 0.002
+    do_ci = do_stats
+    if do_stats:
+        try:
+            cr = s.crlb(wrt)(dict(vals))
+            try:
+                ci = s.confint(obs, wrt)(dict(vals))
+            except ModuleNotFoundError:      # t quantile not tabulated for this number of degrees of freedom (needs scipy)
+                do_ci, ci = False, np.zeros(bshape + (len(wrt),))
+        except Exception as e:
+            return ("Sequence.crlb", "crlb/confint raised %s: %s" % (type(e).__name__, str(e)[:200]))
+        if np.shape(cr) != bshape or np.shape(ci) != bshape + (len(wrt),):
+            return ("Sequence.crlb", "crlb has shape %s, confint %s, batch %s" % (np.shape(cr), np.shape(ci), bshape))
+    for idx in np.ndindex(*bshape):
+        sv = {k: float(v[idx]) for k, v in full.items()}
+        s1 = s.signal()(dict(sv))[0]
+        _, j1 = s.jacobian(wrt)(dict(sv))
+        _, _, h1 = s.hessian(wrt)(dict(sv))
+        if np.abs(sig[idx] - s1).max() > 1e-10 * (1 + np.abs(s1).max()):
+            return ("Sequence.signal", "signal%s differs from the scalar run at %s" % (list(idx), sv))
+        if np.abs(jac[idx] - j1[0]).max() > 1e-9 * (np.abs(j1).max() + 1e-12):
+            return ("Sequence.jacobian", "jacobian%s = %s differs from the scalar run at %s: %s" % (
+                list(idx), np.round(jac[idx], 8).tolist(), sv, np.round(j1[0], 8).tolist()))
+        if np.abs(hes[idx] - h1[0]).max() > 1e-9 * (np.abs(h1).max() + 1e-12):
+            return ("Sequence.hessian", "hessian%s differs from the scalar run at %s" % (list(idx), sv))
+        if do_stats:
+            c1 = s.crlb(wrt)(dict(sv))
+            i1 = s.confint(obs[idx][None], wrt)(dict(sv)) if do_ci else ci[idx][None]
+            if not np.allclose(cr[idx], c1[0], rtol=1e-6):
+                return ("Sequence.crlb", "crlb%s = %s, scalar run at %s gives %s" % (list(idx), cr[idx], sv, c1[0]))
+            if not np.allclose(ci[idx], i1[0], rtol=1e-6):
+                return ("Sequence.confint", "confint%s = %s, scalar run at %s gives %s" % (list(idx), ci[idx], sv, i1[0]))
+    return None
+
+
 # ------------------------------------------------------------------ verdicts computed inside Coq
 def coq_vop_verdicts(ctx, vops):
     terms = ["vop_binding_ok (nth %d vop_table (Build_vop_entry \"\" \"\" [] [] []))" % i for i in range(len(vops))]
@@ -722,6 +1027,8 @@ def run(ctx):
                        signature={"table": "virtual-operators", "entry": name})
     option_findings(ctx, bad_options, vops)
     run_jacobians(ctx, sq, 12 if quick else 150, bad_binding)
+    run_hessians(ctx, sq, 18 if quick else 200)
+    run_batches(ctx, sq, 12 if quick else 120)
     ctx.cov["trusted_base"] += [
         "translator /verif/translator/seq_tables.py (Python ast -> Gen/SeqTables.v: math table, virtual-operator table, __init__ signatures)",
         "hand-written model Model/Expr.v (ten python/numpy primitives, Expression.derive/map transcription), tied to epgpy.sequence by exact rational and Interval correspondence",
@@ -757,6 +1064,37 @@ def replay(ctx, rp):
             outs.add(p.stdout.strip().split("\n")[-1])
         print("replay: %s -> %s" % (rp["call"], sorted(outs)))
         return 0 if outs == {"same"} else 1
+    if kind == "hessian":
+        def tup(t):
+            return (t[0], Fraction(t[1])) if t[0] == "c" else (t[0], t[1]) if t[0] == "v" else (t[0], t[1], [tup(a) for a in t[2]])
+        case = rp["case"]
+        for o in case["ops"]:
+            if "args" in o:
+                o["args"] = {p: tup(t) for p, t in o["args"].items()}
+        why = hessian_check_safe(case, sq, rp["v1"]) if rp["v2"] is None else None
+        if rp["v2"] is not None:
+            try:
+                why = hessian_check(case, sq, rp["v1"], rp["v2"])
+            except Exception as e:
+                why = str(e)
+        print("replay: %s" % ("VIOLATION reproduced: " + why if why else "hessian agrees with central differences"))
+        return 1 if why else 0
+    if kind == "batch":
+        if rp.get("case"):
+            def tup(t):
+                return (t[0], Fraction(t[1])) if t[0] == "c" else (t[0], t[1]) if t[0] == "v" else (t[0], t[1], [tup(a) for a in t[2]])
+            case = rp["case"]
+            for o in case["ops"]:
+                if "args" in o:
+                    o["args"] = {p: tup(t) for p, t in o["args"].items()}
+            s_ = build_shared(case, sq)
+        else:
+            print("replay: sequence %s (rebuild by hand), values %s" % (rp["sequence"], rp["values"]))
+            return 1
+        vals = {k: (np.asarray(v) if isinstance(v, list) else v) for k, v in rp["values"].items()}
+        why = batch_check(s_, vals, tuple(rp["batch_shape"]), rp["wrt"])
+        print("replay: %s" % ("VIOLATION reproduced: " + why[1] if why else "batched call agrees with the scalar calls"))
+        return 1 if why else 0
     if kind == "vop-option":
         try:
             getattr(sq.operators, rp["op"])(**rp["kwargs"]).build({})
